@@ -61,3 +61,19 @@ Print Assumptions C02_minimize_like_restores.
 Print Assumptions C02_abort_restores_unrestricted_refuted.
 Print Assumptions C02_hooks_finished.
 Print Assumptions C02_kill_tempdir.
+
+(* ---- a following run() on a RE-USED Lithium object (Model/Session.v): same statements for EVERY previous
+   world (any counters, temp dir, stale last_interesting, written flag) *)
+From Lithium Require Import Session SessionProofs.
+
+(* the abort half (C02): whatever way the following run ends - finished, test raised, strategy
+   raised - the file is the last accepted version of THIS run (same side condition as C02_abort_restores) *)
+Theorem C02_session_abort_restores :
+  forall S (strat : strategy S) verdict fuel tc0 file0 prev e w,
+    content tc0 = file0 ->
+    run_on strat verdict fuel tc0 (carry true prev file0) = Aborted e w ->
+    (e = None \/ 1 < n_tests (chron w) \/ no_writes (chron w)) ->
+    w_file w = last_accepted (chron w) file0.
+Proof. exact session_abort_restores. Qed.
+
+Print Assumptions C02_session_abort_restores.
